@@ -199,6 +199,9 @@ func TestC20Rapid(t *testing.T) {
 			if m.auto && !noWatcher {
 				wantFds, wantWatches = 1, distinctExisting(m.dirs)
 			}
+			if m.auto && !noWatcher {
+				undecidedIfNoInotify(t, cache)
+			}
 			_ = obs.FullView(cache) // a query lets the cache pick up directories that appeared
 			if fds, watches := settleInotify(wantFds, wantWatches); fds != wantFds || watches != wantWatches {
 				fail("the process holds %d inotify descriptors with %d watches; with auto-refresh=%v over %v it should hold %d with %d", fds, watches, m.auto, m.dirs, wantFds, wantWatches)
